@@ -98,3 +98,34 @@ let run inp obs : string option * string option =
        else (None, None))
   | _ -> (Some "unparsable C14 case", None)
 let () = Evalreg.register "C14" run
+
+(* C14B <trailer md> ; <raw trailer block hex>: the bytes a gRPC-web client parses.
+   spec  = every line of the block is a field (no stray line), and the x- fields it carries are exactly the trailer values the
+           handler set, each on one line, CR / LF replaced and blank space trimmed (TrailerBlock.wire_value): nothing forged
+   model = the x- lines of the block are, byte for byte, TrailerBlock.write_block of the sorted metadata *)
+let run_b inp obs : string option * string option =
+  match inp, obs with
+  | ["C14B"; tmd], [raw] when raw <> "none" && raw <> "panic" ->
+    let md = Stdlib.List.sort (fun (a, _) (b, _) -> compare (bytes_str a) (bytes_str b)) (dec_map tmd) in   (* Header.Write sorts by key *)
+    let block = bytes_of_hex raw in
+    let fields = TrailerBlock.parse_block block in
+    let what = Printf.sprintf "gRPC-web trailer block %S for trailer metadata {%s}" (String.escaped (bytes_str block)) (String.escaped (show_map md)) in
+    if Stdlib.List.exists (fun f -> f = None) fields then (Some (what ^ ": a line that is not a field"), None) else
+    let is_x k = match k with a :: b :: _ -> Util.int_of_n a = 120 && Util.int_of_n b = 45 | _ -> false in
+    let got = Stdlib.List.filter_map (function Some (k, v) when is_x k -> Some (k, v) | _ -> None) fields in
+    let want = Stdlib.List.concat_map (fun (k, vs) -> Stdlib.List.map (fun v -> (k, TrailerBlock.wire_value v)) vs) md in
+    if Stdlib.List.sort compare got <> Stdlib.List.sort compare want then
+      (Some (what ^ ": the client reads fields that are not the values set (each on one line, line breaks as spaces, trimmed)"), None)
+    else begin
+      (* the model writes the same bytes: compare the x- part of the block *)
+      let model = TrailerBlock.write_block (Stdlib.List.concat_map (fun (k, vs) -> Stdlib.List.map (fun v -> (k, v)) vs) md) in
+      let s = bytes_str block and m = bytes_str model in
+      let contains hay needle =
+        let n = String.length needle and h = String.length hay in
+        let rec go i = i + n <= h && (String.sub hay i n = needle || go (i + 1)) in n = 0 || go 0 in
+      if contains s m then (None, None)
+      else (None, Some (what ^ Printf.sprintf ": the model writes %S for the x- keys" (String.escaped m)))
+    end
+  | ["C14B"; _], [r] -> (Some ("no trailer frame in the gRPC-web response (" ^ r ^ ")"), None)
+  | _ -> (Some "unparsable C14B case", None)
+let () = Evalreg.register "C14B" run_b
